@@ -16,7 +16,7 @@ THOROUGH = QUICK + [(1, 4, 3), (2, 4, 2), (2, 3, 3), (3, 3, 3), (3, 4, 2), (4, 3
 def describe(tier):
     cfg = QUICK if tier == "quick" else THOROUGH
     return {
-        "rule": "empty-entry family: 1..3 dimensions (2 rows) where one dimension additionally carries an explicitly empty entry - nothing may be presented for it; long family: N=18(24) rows, one dimension holding a contiguous run of 8..10(17) rows of one category and another with 1-2 sparse rows, both orders and a 3-dimension variant; populous family: 17..70(260) rows under every ordered pair (and four triples) of six row patterns (constant, r mod 2, r mod 3, a mixing pattern, halves, reversed r mod 3) so that every cell holds many rows, three choices of common values; and for each (D dims, N rows, E categories) in %r: every data vector over {0..E-1} per dimension and every common value in 0..E per "
+        "rule": "empty-entry family: 1..3 dimensions (2 rows) where one dimension additionally carries an explicitly empty entry - nothing may be presented for it; long family: N=18(24) rows, one dimension holding a contiguous run of 8..10(17) rows of one category and another with 1-2 sparse rows, both orders and a 3-dimension variant; populous family: 17..70(260) rows under every ordered pair (and four triples) of six row patterns (constant, r mod 2, r mod 3, a mixing pattern, halves, reversed r mod 3) so that every cell holds many rows, three choices of common values (every third case also with every stored row-id array as a non-contiguous view); MANY family: 1500-4000 (20000) rows over dimensions of 70 / 150 / 200 categories crossed with small ones, 1-3 dimensions; and for each (D dims, N rows, E categories) in %r: every data vector over {0..E-1} per dimension and every common value in 0..E per "
         "dimension (E = absent); the log of (coords, rows) delivered to interactions() and to two callbacks of walk([f, g]) must equal, as a multiset, "
         "{(c, rows(c)) : c in prod(uncommon_d u {-1}) minus all -1, rows(c) non-empty}; each row array strictly increasing uint32. "
         "Non-trivial: D >= 2 and at least one expected combination mixing a marginal and an uncommon coordinate. Distinct = distinct (data, commons)." % (cfg,),
@@ -63,6 +63,24 @@ POP_PATTERNS = {
 }
 
 
+MANY_N = {"quick": [1500, 4000], "thorough": [1500, 4000, 20000]}
+MANY_PATTERNS = {
+    "cats70": lambda r, N: (r * 7) % 70,
+    "cats150": lambda r, N: (r * 11 + r // 13) % 150,
+    "cats200": lambda r, N: (r * 3 + r // 7) % 200,
+    "cats3": lambda r, N: (r // 5) % 3,
+    "cats5": lambda r, N: (r * 2 + r // 3) % 5,
+}
+
+
+def many_cases(tier):
+    out = []
+    for N in MANY_N[tier]:
+        for pats in (("cats3", "cats150"), ("cats150", "cats3"), ("cats70", "cats200"), ("cats3", "cats150", "cats200"), ("cats5", "cats70", "cats3"), ("cats200",)):
+            out.append((N, pats))
+    return out
+
+
 def populous_cases(tier):
     names = sorted(POP_PATTERNS)
     out = []
@@ -79,6 +97,7 @@ def blocks(tier):
     cfg = QUICK if tier == "quick" else THOROUGH
     out = [("long", {"tier": tier, "i": i}) for i in range(len(long_cases(tier)))]
     out += [("populous", {"tier": tier, "i": i}) for i in range(len(populous_cases(tier)))]
+    out += [("many", {"tier": tier, "i": i}) for i in range(len(many_cases(tier)))]
     out += [("emptyentry", {"D": D, "pos": pos}) for D in (1, 2, 3) for pos in range(D)]
     for D, N, E in cfg:
         n0 = len(dim_opts(N, E))
@@ -104,11 +123,37 @@ def expected(datas, commons):
     return exp
 
 
-def check(datas, commons, acc, case):
+def expected_fast(datas, commons):
+    """The same multiset, grouped row by row (O(rows x 2^D)): for many rows and many categories."""
+    N = len(datas[0])
+    D = len(datas)
+    groups = {}
+    for r in range(N):
+        vals = [datas[d][r] for d in range(D)]
+        free = [d for d in range(D) if vals[d] != commons[d]]      # a row can only match an uncommon coordinate it holds
+        for k in range(1, len(free) + 1):
+            for sub in itertools.combinations(free, k):
+                coords = tuple(vals[d] if d in sub else -1 for d in range(D))
+                groups.setdefault(coords, []).append(r)
+    exp = Counter()
+    for coords, rows in groups.items():
+        exp[(coords, tuple(rows))] += 1
+    return exp
+
+
+def check(datas, commons, acc, case, fast=False, layout=None):
     from catii.ccubes import ccube
 
     dims = [M.build_index(numpy.array(t, dtype=numpy.int64), c) for t, c in zip(datas, commons)]
-    exp = expected(datas, commons)
+    if layout == "strided-entries":
+        # every stored row-id array as a non-contiguous view (legal: validate() accepts it, to_array() reads it)
+        for d in dims:
+            for k in list(dict.keys(d)):
+                a = dict.__getitem__(d, k)
+                big = numpy.zeros(2 * len(a) + 1, dtype=numpy.uint32)
+                big[::2][:len(a)] = a
+                dict.__setitem__(d, k, big[::2][:len(a)])
+    exp = expected_fast(datas, commons) if fast else expected(datas, commons)
     try:
         cube = ccube(dims)
         inter = cube.interactions()
@@ -167,12 +212,22 @@ def run_block(family, p, acc):
             exp = check_with_empty_entry(datas, commons, pos, acc)
             acc.case(("empty", pos, tuple(datas), tuple(commons)), nontrivial=D >= 2, outcome=("empty", D, len(exp)), sample={"data": [list(t) for t in datas], "commons": commons, "empty_entry_in_dim": pos})
         return
+    if family == "many":
+        N, pats = many_cases(p["tier"])[p["i"]]
+        datas = [tuple(MANY_PATTERNS[n](r, N) for r in range(N)) for n in pats]
+        for commons in ([0] * len(pats), [1] + [0] * (len(pats) - 1)):
+            case = {"many": [N, list(pats)], "commons": commons}
+            exp = check(datas, commons, acc, case, fast=True)
+            acc.case(("many", N, pats, tuple(commons)), nontrivial=True, outcome=("many", len(pats), len(exp) > 1000), sample=case)
+        return
     if family == "populous":
         N, pats = populous_cases(p["tier"])[p["i"]]
         datas = [tuple(POP_PATTERNS[n](r, N) for r in range(N)) for n in pats]
         for commons in ([0] * len(pats), [2] + [0] * (len(pats) - 1), [0] * (len(pats) - 1) + [1]):
             case = {"data": [list(t) for t in datas], "commons": commons, "populous": [N, list(pats)]}
             exp = check(datas, commons, acc, case)
+            if p["i"] % 3 == 0:
+                check(datas, commons, acc, dict(case, layout="strided-entries"), layout="strided-entries")
             acc.case((tuple(datas), tuple(commons)), nontrivial=True, outcome=("populous", len(pats), len(exp)), sample={"rows": N, "patterns": list(pats), "commons": commons})
         return
     if family == "long":
@@ -202,10 +257,14 @@ def replay(case, site=None):
     from ..core import Acc
 
     acc = Acc(ID, [], stop_at_first=False)
-    if case.get("empty_entry"):
+    if case.get("many"):
+        N, pats = case["many"]
+        datas = [tuple(MANY_PATTERNS[n](r, N) for r in range(N)) for n in pats]
+        check(datas, case["commons"], acc, case, fast=True)
+    elif case.get("empty_entry"):
         check_with_empty_entry([tuple(t) for t in case["data"]], case["commons"], case["empty_entry"][0], acc)
     else:
-        check([tuple(t) for t in case["data"]], case["commons"], acc, case)
+        check([tuple(t) for t in case["data"]], case["commons"], acc, case, layout=case.get("layout"))
     for v in acc.violations:
         print("  %s :: %s" % (v["site"], v["detail"][:600]))
     return bool(acc.violations)
